@@ -104,6 +104,9 @@ POOL_MS = {
     "EFDD": (EFDD_MS, dict(nxseg=256), dict(DF1=1.0, DF2=4.0, npmax=6)),
 }
 SEL = [6.0]
+DEFAULTS = {"pov": 0.5, "method_SD": "per"}  # library defaults of the fields the pool leaves unset
+# the alternative parameter set a user may switch to between two runs of the same object (one field per class)
+ALT = {"SSIcov": dict(br=7), "SSIdat": dict(br=7), "pLSCF": dict(pov=0.0), "FDD": dict(pov=0.0), "EFDD": dict(method_SD="cor"), "FSDD": dict(pov=0.25)}
 
 
 def _data(kind, seed=7):
@@ -124,8 +127,10 @@ def _new_setup(kind, seed=7):
     return MultiSetup_PreGER(fs=FS, ref_ind=refs, datasets=ds)
 
 
-def _new_alg(kind, cls_key, name, with_params=True):
+def _new_alg(kind, cls_key, name, with_params=True, alt=False):
     cls, kw, _ = (POOL_SINGLE if kind == "single" else POOL_MS)[cls_key]
+    if alt:
+        kw = dict(kw, **ALT[cls_key])
     return cls(name=name, **kw) if with_params else cls(name=name)
 
 
@@ -160,7 +165,7 @@ def _precompute():
             done.append((key, out))
             with open(out, "rb") as f:
                 res = pickle.load(f)
-            for stage in ("run", "mpe"):
+            for stage in ("run", "mpe", "run_alt", "mpe_alt"):
                 _MEMO[(key[0], key[1], stage, key[2])] = res[stage]
 
 
@@ -194,7 +199,7 @@ def judge_history(case):
     setups = [_new_setup(kind, seeds[i]) for i in range(nset)]
     fps = [_data_fingerprint(s_, kind) for s_ in setups]
     objs = {n: _new_alg(kind, ck, n, wp) for n, (ck, wp, _) in algs_spec.items()}
-    model = {n: {"added": False, "ran": False, "mpe": False, "bound": None, "orig": True} for n in objs}
+    model = {n: {"added": False, "ran": False, "mpe": False, "bound": None, "orig": True, "alt": False, "ran_alt": False} for n in objs}
     prepped = [False] * nset
     ran_classes = set()
     j.tag(kind)
@@ -213,7 +218,7 @@ def judge_history(case):
             if not m["ran"]:
                 j.check(a.result is None, "result-without-run", lambda: f"after step {step} ({what}): algorithm {n} has a result although it never ran successfully")
                 continue
-            tag, exp = expected(kind, ck, "mpe" if m["mpe"] else "run", seeds[algs_spec[n][2]])
+            tag, exp = expected(kind, ck, ("mpe" if m["mpe"] else "run") + ("_alt" if m["ran_alt"] else ""), seeds[algs_spec[n][2]])
             if tag != "ok":
                 continue
             got = snapshot(a.result)
@@ -261,8 +266,25 @@ def judge_history(case):
                 if j.check(not raised(r), "run-raises", lambda: f"run_by_name({n!r}) raised {r!r}"):
                     model[n]["ran"] = True
                     model[n]["mpe"] = False
+                    model[n]["ran_alt"] = model[n]["alt"]
                     ran_classes.add(algs_spec[n][0])
             check_all(step, f"run {n}")
+        elif kindop == "setrun":
+            # the user switches one run parameter of an algorithm that is already in a setup and runs it again at once
+            n = op[1]
+            m = model[n]
+            if not (m["added"] and algs_spec[n][1] and m["orig"] and not m.get("unknown")):
+                continue
+            target = ALT[algs_spec[n][0]] if not m["alt"] else {k_: (POOL_SINGLE if kind == "single" else POOL_MS)[algs_spec[n][0]][1].get(k_, DEFAULTS.get(k_)) for k_ in ALT[algs_spec[n][0]]}
+            for k_, v_ in target.items():
+                setattr(objs[n].run_params, k_, v_)
+            m["alt"] = not m["alt"]
+            j.tag("parameters-switched")
+            r = sut(setups[algs_spec[n][2]].run_by_name, n)
+            if j.check(not raised(r), "run-raises", lambda: f"run_by_name({n!r}) after a parameter change raised {r!r}"):
+                m["ran"], m["mpe"], m["ran_alt"] = True, False, m["alt"]
+                ran_classes.add(algs_spec[n][0])
+            check_all(step, f"switch parameters of {n} and run")
         elif kindop == "run_all":
             setup = setups[(op[1] if len(op) > 1 else 0) % nset]
             r = sut(setup.run_all)
@@ -275,6 +297,7 @@ def judge_history(case):
                         break
                     model[n]["ran"] = True
                     model[n]["mpe"] = False
+                    model[n]["ran_alt"] = model[n]["alt"]
                     ran_classes.add(algs_spec[n][0])
             elif raised(r) and any(not model[n]["orig"] for n in added):
                 j.skip("run-all-raises-on-preprocessed-data")
@@ -285,6 +308,7 @@ def judge_history(case):
                     for n in added:
                         model[n]["ran"] = True
                         model[n]["mpe"] = False
+                        model[n]["ran_alt"] = model[n]["alt"]
                         ran_classes.add(algs_spec[n][0])
             check_all(step, "run_all")
         elif kindop == "mpe":
@@ -305,7 +329,7 @@ def judge_history(case):
                 else:
                     model[n]["mpe"] = True
             else:
-                tag, _ = expected(kind, algs_spec[n][0], "mpe", seeds[algs_spec[n][2]])
+                tag, _ = expected(kind, algs_spec[n][0], "mpe_alt" if model[n]["ran_alt"] else "mpe", seeds[algs_spec[n][2]])
                 if tag == "ok":
                     if j.check(not raised(r), "mpe-raises", lambda: f"mpe({n!r}) raised {r!r} although an isolated run+mpe succeeds"):
                         model[n]["mpe"] = True
@@ -341,7 +365,10 @@ def machine_case(draw, kind):
     if draw(st.integers(0, 4)) != 0:  # most histories start by adding everything (construction: makes multi-algorithm runs likely)
         ops.append(["add", list(names)])
     for _ in range(draw(st.integers(2, 8))):
-        o = draw(st.sampled_from(["add", "add", "run", "run", "run", "run_all", "run_all", "mpe", "mpe", "unknown", "prep"]))
+        o = draw(st.sampled_from(["add", "add", "run", "run", "run", "run_all", "run_all", "mpe", "mpe", "unknown", "prep", "setrun", "setrun"]))
+        if o == "setrun":
+            ops.append(["setrun", draw(st.sampled_from(names))])
+            continue
         if o == "prep":
             ops.append(["prep", draw(st.integers(0, 1)), draw(st.sampled_from(["detrend", "decimate"]))])
             continue
